@@ -3,6 +3,7 @@ EXTENDS Scopes
 NameSet == {"sin", "cos", "alog", "log"}
 OneName == {"sin"}
 Specific == {"alog", "log"}
+Three == {"sin", "alog", "log"}
 PosAll == 1..7
 Pos1 == {1}
 HowAll == {"decl", "only", "ren", "wild"}
